@@ -38,7 +38,7 @@ def gen_cancel(r, tier):
 class C16(Prop):
     id = "C16"
     lean_modules = ["Fan2go.Props.C16"]
-    fact_modules = ["Fan2go.Props.Facts", "Fan2go.Props.Trans3Init"]
+    fact_modules = ["Fan2go.Props.Facts", "Fan2go.Props.Trans3Init", "Fan2go.Props.Trans3RunInit"]
     rule = ("together: 2..4 real controllers on virtual fans that all need analysis, started concurrently with random start delays "
             "(0..3000 us) and differing device behaviour, virtual sleeps yielding 20..60 us of real time; every PWM write carries a "
             "global sequence number; analysis intervals must not intersect when runFanInitializationInParallel=false (and do "
